@@ -414,3 +414,99 @@ func mixedSizesUnit(format string) func(c *Ctx) {
 		}
 	}
 }
+
+// "exactsizes" units (C01–C05): one record whose WRITTEN TEXT is exactly 2^16,
+// 2^20, 2^21, 3*2^20 … bytes long (and one byte less / more), followed by a
+// small record. A writer that hands its text to the destination in chunks, a
+// reader that takes its input in blocks: both have their off-by-one where the
+// total is an exact multiple of the chunk. The length sweeps elsewhere vary one
+// FIELD; here the field is sized so that the TOTAL lands on the target.
+func exactSizeUnit(format string) func(c *Ctx) {
+	return func(c *Ctx) {
+		cd := codecByName(format)
+		targets := []int{1 << 16, 1 << 20, 1 << 21, 3 << 20}
+		if c.Thorough {
+			targets = append(targets, 1<<12, 1<<13, 1<<15, 1<<17, 1<<18, 1<<19, 3<<19, 1<<22, 5<<20)
+		}
+		idx := int64(0)
+		for _, t := range targets {
+			for d := -1; d <= 1; d++ {
+				c.Case(idx, func(k *K) {
+					r := k.Rand()
+					variant := r.IntN(2)
+					fill := func(l int) string { return string(bytes.Repeat([]byte("abcdefghi_"), l/10+1)[:l]) }
+					build := func(l int) ([]byte, item, bool) {
+						var w bytes.Buffer
+						var it item
+						var err error
+						switch format {
+						case "fasta":
+							rec := &fasta.Fasta{Name: []byte(fill(l)), Sequence: []byte("ACGTACGTAC")}
+							err, it = rec.Write(&w), item{Key: fastaKey(rec)}
+						case "fastq":
+							rec := &fastq.Fastq{Name: []byte("r1"), Sequence: []byte("ACGT"), Quals: []byte("IIII")}
+							if variant == 0 {
+								rec.Name = []byte(fill(l))
+							} else { // sequence and qualities grow together: totals of one parity only
+								rec.Sequence, rec.Quals = bytes.Repeat([]byte("ACGTT"), l/10+1)[:l/2], bytes.Repeat([]byte("IJKLM"), l/10+1)[:l/2]
+								rec.Name = []byte("r1x"[:2+l%2])
+							}
+							err, it = rec.Write(&w), item{Key: fastqKey(rec)}
+						case "sam":
+							rec := genSAM(rand.New(rand.NewPCG(uint64(t), 7)))
+							rec.Tags = nil
+							if variant == 0 {
+								rec.Qname = fill(l)
+							} else {
+								rec.Cigar = fill(l)
+							}
+							err, it = rec.Write(&w), item{Key: samKey(rec)}
+						case "bed":
+							rec := genBED(rand.New(rand.NewPCG(uint64(t), 7)), 4)
+							rec.Name = fill(l)
+							err, it = rec.Write(&w), item{Key: bedKey(bedExpected(rec))}
+						default:
+							root := &newick.Node{Name: "r", Children: []*newick.Node{{Name: fill(l), Distance: 1.5}, {Name: "x"}}}
+							if variant == 1 {
+								root = &newick.Node{Name: fill(l)}
+							}
+							err, it = root.Write(&w), item{Key: treeKey(root)}
+						}
+						return w.Bytes(), it, err == nil
+					}
+					probe, _, ok := build(20)
+					if !ok {
+						k.Failf("write-error", "%s: Write to a bytes.Buffer failed", format)
+						return
+					}
+					l := t + d - (len(probe) - 20)
+					text, it, ok := build(l)
+					if !ok {
+						k.Failf("write-error", "%s: Write to a bytes.Buffer failed", format)
+						return
+					}
+					if len(text) != t+d && len(text) != t+d-1 && len(text) != t+d+1 { // (the variants that grow two fields land within one byte)
+						k.Count("targets_not_reached", 1)
+					}
+					k.Input("format", format)
+					k.Input("text_length", len(text))
+					small, it2, _ := build(3)
+					x := append(append([]byte{}, text...), small...)
+					want := []item{it, it2}
+					if format == "bed" {
+						// (same field count in both records)
+					}
+					got, over := collect(cd.seq(bytes.NewReader(x)), 6)
+					if over || !sameTrace(got, want) {
+						k.Failf("exact-size", "%s: a record whose written text is %d bytes long (followed by a small one) does not survive write -> read:\n got  %.300s\n want %.300s", format, len(text), traceString(got), traceString(want))
+						return
+					}
+					k.Count("exact_size_records", 1)
+					k.Evals(1)
+					k.Nontrivial([]byte(format), []byte(fmt.Sprint(len(text), variant)))
+				})
+				idx++
+			}
+		}
+	}
+}
